@@ -341,7 +341,7 @@ def _terminates(body) -> bool:
     return False
 
 
-def path_conds(f: FuncInfo, node: ast.AST) -> List[Tuple[str, bool]]:
+def path_conds(f: FuncInfo, node: ast.AST, inline: bool = False) -> List[Tuple[str, bool]]:
     """the conditions that hold on the way to `node`: the enclosing branches, plus, for every earlier `if C: ... return / raise` in an enclosing block, C being false
     (after canonicalisation an else that follows such a branch is written as the statements after the if).  A leading `not` is folded into the truth value."""
     out: List[Tuple[str, bool]] = []
@@ -349,7 +349,12 @@ def path_conds(f: FuncInfo, node: ast.AST) -> List[Tuple[str, bool]]:
     def fold(t, truth):
         while isinstance(t, ast.UnaryOp) and isinstance(t.op, ast.Not):
             t, truth = t.operand, not truth
-        return (norm_text(t).replace('"', "'"), truth)
+        if inline:
+            # name-free: a test held in a single-assignment temporary is the expression it was bound to
+            t = inline_locals(f, t)
+            while isinstance(t, ast.UnaryOp) and isinstance(t.op, ast.Not):
+                t, truth = t.operand, not truth
+        return (norm_text(t, limit=2000).replace('"', "'"), truth)
 
     def push(t, truth):
         """a conjunction that holds / a disjunction that fails is the list of its parts"""
